@@ -297,6 +297,9 @@ func (s *S) Image(env *TypeEnv, key *string, arrayItem bool) map[string]J {
 					k := p.Key
 					im := p.V.Image(env, &k, false)
 					im["inheritedFrom"] = r.Val
+					if p.Shortcut {
+						im["isKeyUserTypeRef"] = true
+					}
 					children = append(children, im)
 				}
 			}
@@ -433,7 +436,7 @@ func (s *S) Example(env *TypeEnv, depth int) J {
 		if r := s.rule("allOf"); r != nil {
 			if t := env.Types[r.Val]; t != nil && t.Schema != nil {
 				for _, p := range t.Schema.Props {
-					m[p.Key] = p.V.Example(env, depth+1)
+					m[p.exampleKey(env)] = p.V.Example(env, depth+1)
 				}
 			}
 		}
@@ -480,14 +483,15 @@ func typeExample(env *TypeEnv, name string, depth int) J {
 // ---- random schemas ----
 
 type schemaGen struct {
-	r         *rand.Rand
-	scalarTyp []string // names of user types whose schema is an integer scalar (usable in {type: "@x"})
-	objTypes  []string // object types with scalar properties only (usable in allOf)
-	refTypes  []string // types that may be referenced (jsight and regex)
-	strTypes  []string // string scalar types (usable as shortcut property keys)
-	enums     map[string][]string
-	enumNames []string
-	words     []string
+	r           *rand.Rand
+	scalarTyp   []string          // names of user types whose schema is an integer scalar (usable in {type: "@x"})
+	objTypes    []string          // object types with scalar properties only (usable in allOf)
+	refTypes    []string          // types that may be referenced (jsight and regex)
+	strTypes    []string          // string scalar types (usable as shortcut property keys)
+	objShortcut map[string]string // allOf base type -> the user type its shortcut-key property refers to ("" if none)
+	enums       map[string][]string
+	enumNames   []string
+	words       []string
 }
 
 var wordList = []string{"alpha", "beta", "gamma", "delta", "omega", "kappa", "sigma", "theta", "lambda", "zeta"}
@@ -645,8 +649,14 @@ func (g *schemaGen) object(depth int, allowAllOf bool) *S {
 	s := &S{K: "obj"}
 	used := map[string]bool{}
 	if allowAllOf && len(g.objTypes) > 0 && g.r.Intn(4) == 0 {
-		s.Rules = append(s.Rules, Rule{Name: "allOf", Val: g.objTypes[g.r.Intn(len(g.objTypes))]})
-		// inherited keys are b0..b9 – own keys never collide with them
+		base := g.objTypes[g.r.Intn(len(g.objTypes))]
+		s.Rules = append(s.Rules, Rule{Name: "allOf", Val: base})
+		// inherited keys are b0..b9 – own keys never collide with them. An inherited key that refers to a user type (@ty3: 1) and
+		// the literal key "@ty3" are different properties: sometimes the inheriting object has the literal one
+		if sk := g.objShortcut[base]; sk != "" && g.r.Intn(2) == 0 {
+			s.Props = append(s.Props, Prop{Key: sk, V: &S{K: "int", Lit: "7"}})
+			used[sk] = true
+		}
 	}
 	if g.r.Intn(7) == 0 {
 		vals := []string{"true", "false", "string", "integer", "any", "null", "boolean", "float", "array", "object"}
@@ -656,7 +666,14 @@ func (g *schemaGen) object(depth int, allowAllOf bool) *S {
 	if len(g.strTypes) > 0 && g.r.Intn(6) == 0 {
 		// a property whose key is a reference to a string type: its name is that type's example ("sk<i>", never a generated key)
 		v := g.scalar(true)
-		s.Props = append(s.Props, Prop{Key: g.strTypes[g.r.Intn(len(g.strTypes))], V: v, Shortcut: true})
+		st := g.strTypes[g.r.Intn(len(g.strTypes))]
+		inherited := false
+		if r := s.rule("allOf"); r != nil && g.objShortcut[r.Val] == st {
+			inherited = true // the base type has this very property: writing it again would override an inherited property
+		}
+		if !inherited {
+			s.Props = append(s.Props, Prop{Key: st, V: v, Shortcut: true})
+		}
 	}
 	n := 1 + g.r.Intn(4)
 	for i := 0; i < n; i++ {
